@@ -25,7 +25,7 @@ SCOPE = {"quick": "L=2, full flavour product for <=2 sources x <=1 callable", "t
 ASSUMPTIONS = ["exit callbacks: the exitstack family runs every flavour assignment of exit handlers (def / async def / partial / object), "
                "context managers (sync / async) and callbacks over all stacks of <=2 (thorough 3) entries x 6 behaviours x block outcome; "
                "the unwinding order itself is C14's subject"]
-KINDS = ["list", "seq", "iter", "agen", "aobj"]
+KINDS = ["list", "seq", "iter", "agen", "aobj", "aobj_nc"]     # aobj_nc: a class-based async iterator WITHOUT aclose
 FLAV = ["def", "async", "partial", "obj", "objx", "cls", "bound", "wrapsdef"]   # objx: callable object whose failure is raised at call time
 
 
